@@ -459,6 +459,18 @@ func Run(pid, tier string, seed uint64, driver, outPath, corpusDir string, only 
 		}
 		iss := Issue{Stream: c.Stream, Case: c.Cmd.String(), Meta: metaS, Impl: impl[i].obs, Corpus: c.Corpus}
 		st.OracleChecks++
+		if impl[i].fail == "" && (impl[i].obs == "(hang)" || impl[i].obs == "(crash process-died)") {
+			// the worker process died (fatal error, unrecovered panic in any goroutine, stack overflow) or did
+			// not return: a failing input by itself, unless the model says the program diverges as well
+			diverges := !c.NoModel && strings.HasPrefix(model[c.ID], "(unsupported fuel")
+			if !diverges {
+				if impl[i].obs == "(hang)" {
+					impl[i].fail = "the implementation did not return within the per-case time limit"
+				} else {
+					impl[i].fail = "the implementation killed its process (fatal error or unrecovered panic)"
+				}
+			}
+		}
 		if impl[i].fail != "" {
 			x := iss
 			x.Kind = "oracle"
